@@ -33,6 +33,25 @@ def panel(seed, n, offset=False):
     return cases
 
 
+def warm_panel(seed, n):
+    """Warm starts: x0 is the minimiser itself (half of them exactly on the initial search mesh).
+    Only the per-run clause 'never worse than the (mesh-snapped) starting point' is judged here."""
+    cases = panel(seed + 7, n)
+    for i, scn in enumerate(cases):
+        rng = stream(seed, f"c06w/{i}")
+        D = scn["D"]
+        if i % 2 == 0:
+            c = [-5.0 + 10.0 * rng.randrange(300, 1749) / 2048.0 for _ in range(D)]   # on the 2**-10 mesh of [-5, 5]
+        else:
+            c = [float(f"{rng.uniform(-4, 4):.6g}") for _ in range(D)]
+        scn["target"]["c"] = c
+        scn["x0"] = list(c)
+        scn["where"] = "x0"
+        scn["population"] = "warm"
+        scn["profile"] = "c06warm"
+    return cases
+
+
 def judge_panel(recs):
     n = len(recs)
     within = 0
@@ -54,7 +73,8 @@ def main(tier):
     rep = harness.Report("C06", tier, seed)
     n = 80 if tier == "quick" else 960
     n_off = 64 if tier == "quick" else 480
-    cases = panel(seed, n) + panel(seed, n_off, offset=True)
+    n_warm = 24 if tier == "quick" else 240
+    cases = panel(seed, n) + panel(seed, n_off, offset=True) + warm_panel(seed, n_warm)
     t0 = time.time()
     recs = harness.run_batch(run.run_scenario, cases, timeout=600, report=rep)
     pairs = list(zip(cases, recs))
@@ -79,7 +99,7 @@ def main(tier):
             samples.append(dict(index=scn["index"], D=scn["D"], ev=scn["target"]["ev"], c=scn["target"]["c"], x0=scn["x0"],
                                 gap=r["gap"], evals_to_1e_2=r["evals_to_tol"], n_calls=r["n_calls"]))
     frac, med, ratios = judge_panel(pairs[:n])
-    frac_o, med_o, ratios_o = judge_panel(pairs[n:])
+    frac_o, med_o, ratios_o = judge_panel(pairs[n:n + n_off])
     for nn, fr, md, off in ((n, frac, med, False), (n_off, frac_o, med_o, True)):
         if nn >= 60:
             tag = "-offset" if off else ""
@@ -95,6 +115,7 @@ def main(tier):
         evaluations=len([r for r in recs if r is not None]),
         distinct_nontrivial=len({harness.scn_digest(s) for s, r in pairs if r is not None and r["outcome"] == "completed"}),
         rule="seeded panel of random rotated quadratics (eigenvalues log-uniform in [1,100], minimiser in [-4,4]^D, x0 in [-5,5]^D, box [-10,10]^D, D cycling 1..5, default options); non-trivial = completed run",
+        warm_start_runs=dict(n=n_warm, note="x0 = minimiser (half exactly on the initial search mesh); only never-worse-than-start is judged"),
         offset_panel=dict(n=n_off, offsets=OFFSETS, fraction_within_1e_3=frac_o, median_evals_to_1e_2_per_D=med_o,
                           note="same family plus a constant offset (|f*| up to 1e5): still smooth convex targets of the statement"),
         panel=dict(n=n, fraction_within_1e_3=frac, median_evals_to_1e_2_per_D=med,
